@@ -17,7 +17,7 @@ ASSUMPTIONS = ['partial writes caused by the OS after the document text exists (
 def run(ctx):
     import io_checks, lib
     violations = []
-    n_trees = 6 if ctx.tier == 'quick' else 60
+    n_trees = 12 if ctx.tier == "quick" else 80
     stats, viol = io_checks.fault_injection(ctx.seed, n_trees)
     for v in viol[:3]:
         if v.get('kind') == 'harness':
